@@ -15,12 +15,46 @@ import (
 	"sort"
 	"strings"
 	"sync"
+	"sync/atomic"
 
 	"tags.cncf.io/container-device-interface/schema"
 	specs "tags.cncf.io/container-device-interface/specs-go"
 )
 
-func init() { register("C17", checkC17) }
+func init() {
+	register("C17", checkC17)
+	registerChild("c17first", childC17First)
+}
+
+// childC17First: the very first uses of the builtin schema in this process
+// happen concurrently; prints how many of them gave the wrong verdict.
+func childC17First(args []string) int {
+	good := []byte(`{"cdiVersion":"0.6.0","kind":"v.com/c","devices":[{"name":"d","containerEdits":{"env":["A=b"]}}]}`)
+	bad := [][]byte{[]byte("{}"), []byte(`{"cdiVersion":"0.6.0","kind":"v.com/c","devices":[{"name":"d"}]}`), []byte("cdiVersion: 1\n")}
+	const workers = 32
+	var wrong atomic.Int64
+	start := make(chan struct{})
+	var wg sync.WaitGroup
+	for w := 0; w < workers; w++ {
+		wg.Add(1)
+		go func(w int) {
+			defer wg.Done()
+			<-start
+			s := schema.BuiltinSchema()
+			if w%2 == 0 {
+				if s.ValidateData(bad[w%len(bad)]) == nil {
+					wrong.Add(1)
+				}
+			} else if s.ValidateData(good) != nil {
+				wrong.Add(1)
+			}
+		}(w)
+	}
+	close(start)
+	wg.Wait()
+	fmt.Printf("WRONG %d OF %d\n", wrong.Load(), workers)
+	return 0
+}
 
 type docSlot struct {
 	parent any // *OMap or *[]any holder
@@ -440,6 +474,25 @@ func checkC17(c *Ctx) {
 		}
 		c.Sample(4, map[string]any{"mutations": muts, "model_verdict_valid": model, "annotations_well_formed": wellFormed, "json": clip(string(jb), 600)})
 	})
+	// the builtin schema's first uses, concurrent, in fresh processes
+	if c.replayCase == "" || strings.HasPrefix(c.replayCase, "first-use") {
+		exe, _ := os.Executable()
+		c.RunCases("first-use", c.pick(8, 60), 4, func(cs *Case) {
+			out, err := exec.Command(exe, "child-c17first").CombinedOutput()
+			var wrong, n int
+			if i := strings.LastIndex(string(out), "WRONG "); i >= 0 {
+				fmt.Sscanf(string(out)[i:], "WRONG %d OF %d", &wrong, &n)
+			}
+			if err != nil || n == 0 {
+				cs.Violation("first-use-crash", nil, fmt.Sprintf("a process whose first uses of the builtin schema are concurrent died: %v: %s", err, clip(string(out), 2000)), nil)
+				return
+			}
+			c.Count("concurrent_first_use_validations", n)
+			if wrong > 0 {
+				cs.Violation("first-use-verdict", nil, fmt.Sprintf("%d of %d concurrent first validations with the builtin schema gave a verdict that differs from the shipped schema's (a schema that is still compiling must not validate as 'none')", wrong, n), map[string]any{"output": string(out)})
+			}
+		})
+	}
 	// second reference for the model itself (thorough tier)
 	if len(xrecs) > 0 && c.replayCase == "" {
 		rf := filepath.Join(c.Scratch, "xref.jsonl")
